@@ -8,7 +8,9 @@ import TrimeshVerif.Props.C05
 import TrimeshVerif.Props.C06
 import TrimeshVerif.Props.C07
 import TrimeshVerif.Props.C09
+import TrimeshVerif.Props.C10
 import TrimeshVerif.Props.C13
+import TrimeshVerif.Props.C17
 import TrimeshVerif.Props.C18
 import TrimeshVerif.Props.C19
 import TrimeshVerif.Model.MassRat
